@@ -206,8 +206,41 @@ func benignNarrowing(w *World, x *ssa.Convert) string {
 		return "value is only formatted (boxed into an interface for a log call)"
 	}
 	// (2) port numbers of net.UDPAddr/TCPAddr are 0..65535 by construction of the net package
-	if _, f, ok := fieldLoad(x.X); ok && f.Name() == "Port" && f.Pkg() != nil && f.Pkg().Path() == "net" {
+	isNetPort := func(v ssa.Value) bool {
+		_, f, ok := fieldLoad(v)
+		return ok && f.Name() == "Port" && f.Pkg() != nil && f.Pkg().Path() == "net"
+	}
+	if isNetPort(x.X) {
 		return "net.*Addr.Port is a transport port (0..65535) by the net package's contract"
+	}
+	// ... also when it comes out of a module helper every return of which yields such a port (or 0)
+	if call, idx := callOf(w.resolveLoad(x.X)); call != nil {
+		if h := call.Call.StaticCallee(); h != nil && w.IsMod[h] && len(h.Blocks) > 0 {
+			if idx < 0 {
+				idx = 0
+			}
+			all, n := true, 0
+			for _, r := range returnsOf(h) {
+				if idx >= len(r.Results) {
+					all = false
+					break
+				}
+				for _, lf := range w.guardedLeaves(r.Results[idx], r) {
+					v := stripIntConv(w.resolveLoad(lf.val))
+					if k, isK := constInt(v); isK && k >= 0 && k <= 65535 {
+						continue
+					}
+					if isNetPort(v) {
+						n++
+						continue
+					}
+					all = false
+				}
+			}
+			if all && n > 0 {
+				return "a net.*Addr.Port (0..65535 by the net package's contract) handed through " + fname(h)
+			}
+		}
 	}
 	// (3) wire encodings of a length that the protocol bounds elsewhere: len(Data) → uint16 in
 	//     ChannelData.WriteHeader (payloads above 65535 cannot be framed; C11 states the bound)
@@ -397,7 +430,7 @@ func ruleProgress(c *Ctx, rule string) {
 	consume := w.Func("proto", "", "consumeSingleTURNFrame")
 	buff := w.Field("proto", "STUNConn", "buff")
 	n := 0
-	w.eachInstr(fn, func(in ssa.Instruction) {
+	w.eachInstrDeep(fn, func(in ssa.Instruction) {
 		st, ok := in.(*ssa.Store)
 		if !ok {
 			return
@@ -426,7 +459,7 @@ func ruleProgress(c *Ctx, rule string) {
 		// the copy-out uses the same n
 		c.Anchor(rule, "copy-out")
 		okCopy := false
-		w.eachInstr(fn, func(in2 ssa.Instruction) {
+		w.eachInstr(in.Parent(), func(in2 ssa.Instruction) {
 			call, ok := in2.(*ssa.Call)
 			if !ok {
 				return
